@@ -70,12 +70,12 @@ theorem sum_sum_comm {β γ : Type} (as : List β) (bs : List γ) (F : β → γ
 noncomputable def miCell (total sa sb : ℝ) (nij ai bj : Nat) : ℝ :=
   if nij = 0 then 0 else miTerm total sa sb nij ai bj
 
-theorem mutualInfoTab_real {β γ : Type} (as : List β) (bs : List γ) (F : β → γ → Nat) (G : β → Nat) (H : γ → Nat) :
-    mutualInfoTab (α := ℝ) (as.map fun x => bs.map (F x)) (as.map G) (bs.map H) =
+theorem mutualInfoSum_real {β γ : Type} (as : List β) (bs : List γ) (F : β → γ → Nat) (G : β → Nat) (H : γ → Nat) :
+    mutualInfoSum (α := ℝ) (as.map fun x => bs.map (F x)) (as.map G) (bs.map H) =
       (as.map fun x => (bs.map fun y =>
         miCell (((as.map fun x => (bs.map (F x)).sum).sum : Nat) : ℝ) ((as.map G).sum : Nat) ((bs.map H).sum : Nat)
           (F x y) (G x) (H y)).sum).sum := by
-  unfold mutualInfoTab
+  unfold mutualInfoSum
   rw [tsum_real, List.zip_map', List.flatMap_map, sum_flatMap_real]
   simp only [List.map_map, Function.comp_def]
   congr 1
@@ -93,37 +93,41 @@ theorem countP_zip_swap (yr ye : List Nat) (x y : Nat) :
   intro p _
   simp [Bool.and_comm]
 
-/-- `mutualInfoIdx` as a double sum over reference classes × estimated classes. -/
-theorem mutualInfoIdx_real {yr ye : List Nat} (h : yr.length = ye.length) :
-    mutualInfoIdx (α := ℝ) yr ye =
-      ((classes yr).map fun x => ((classes ye).map fun y =>
-        miCell (yr.length : ℝ) (yr.length : ℝ) (yr.length : ℝ)
-          ((yr.zip ye).countP fun p => p.1 == x && p.2 == y) (yr.count x) (ye.count y)).sum).sum := by
-  unfold mutualInfoIdx
+/-- the double sum over reference classes × estimated classes that `_mutual_info_score` forms before clipping -/
+noncomputable def miSum (yr ye : List Nat) : ℝ :=
+  ((classes yr).map fun x => ((classes ye).map fun y =>
+    miCell (yr.length : ℝ) (yr.length : ℝ) (yr.length : ℝ)
+      ((yr.zip ye).countP fun p => p.1 == x && p.2 == y) (yr.count x) (ye.count y)).sum).sum
+
+theorem sum_cells_eq_length {yr ye : List Nat} (h : yr.length = ye.length) :
+    ((classes yr).map fun x => ((classes ye).map fun b =>
+      (yr.zip ye).countP fun p => p.1 == x && p.2 == b).sum).sum = yr.length := by
+  have := rowSums_contingency h
+  unfold rowSums contingency at this
+  rw [List.map_map] at this
+  simp only [Function.comp_def] at this
+  rw [this]; exact classCounts_sum yr
+
+/-- `mutualInfoIdx` is the clipped double sum. -/
+theorem mutualInfoIdx_real_clip {yr ye : List Nat} (h : yr.length = ye.length) :
+    mutualInfoIdx (α := ℝ) yr ye = clip0 (miSum yr ye) := by
+  unfold mutualInfoIdx mutualInfoTab miSum
   simp only
   rw [rowSums_contingency h, colSums_contingency h]
   unfold contingency
-  rw [mutualInfoTab_real]
+  rw [mutualInfoSum_real]
   have e1 : ((classes yr).map fun a => yr.count a).sum = yr.length := classCounts_sum yr
   have e2 : ((classes ye).map fun b => ye.count b).sum = yr.length := by rw [h]; exact classCounts_sum ye
-  have e3 : ((classes yr).map fun x => ((classes ye).map fun b =>
-      (yr.zip ye).countP fun p => p.1 == x && p.2 == b).sum).sum = yr.length := by
-    have := rowSums_contingency h
-    unfold rowSums contingency at this
-    rw [List.map_map] at this
-    simp only [Function.comp_def] at this
-    rw [this]; exact e1
-  rw [e1, e2, e3]
+  rw [e1, e2, sum_cells_eq_length h]
 
 theorem miCell_comm (N : ℝ) (n a b : Nat) : miCell N N N n a b = miCell N N N n b a := by
   unfold miCell miTerm
   simp only [Transc.ofNat, Transc.log]
   rw [mul_comm (a : ℝ) (b : ℝ)]
 
-/-- **MI(a, b) = MI(b, a)** over the reals. -/
-theorem mutualInfoIdx_real_symm {yr ye : List Nat} (h : yr.length = ye.length) :
-    mutualInfoIdx (α := ℝ) ye yr = mutualInfoIdx (α := ℝ) yr ye := by
-  rw [mutualInfoIdx_real h, mutualInfoIdx_real h.symm, sum_sum_comm, ← h]
+theorem miSum_symm {yr ye : List Nat} (h : yr.length = ye.length) : miSum ye yr = miSum yr ye := by
+  unfold miSum
+  rw [sum_sum_comm, ← h]
   congr 1
   apply List.map_congr_left
   intro x _
@@ -131,6 +135,11 @@ theorem mutualInfoIdx_real_symm {yr ye : List Nat} (h : yr.length = ye.length) :
   apply List.map_congr_left
   intro y _
   rw [countP_zip_swap, miCell_comm]
+
+/-- **MI(a, b) = MI(b, a)** over the reals. -/
+theorem mutualInfoIdx_real_symm {yr ye : List Nat} (h : yr.length = ye.length) :
+    mutualInfoIdx (α := ℝ) ye yr = mutualInfoIdx (α := ℝ) yr ye := by
+  rw [mutualInfoIdx_real_clip h, mutualInfoIdx_real_clip h.symm, miSum_symm h]
 
 /-- The code's `log a − log b` arrangement of one cell is the textbook `p_ij · log(p_ij / (p_i p_j))`. -/
 theorem miCell_textbook {N : Nat} {n a b : Nat} (hN : 0 < N) (ha : 0 < a) (hb : 0 < b) :
@@ -151,6 +160,128 @@ theorem miCell_textbook {N : Nat} {n a b : Nat} (hN : 0 < N) (ha : 0 < a) (hb : 
       Real.log_div ha' hN', Real.log_div hb' hN', Real.log_mul ha' hb']
     ring
 
+/-! #### the sum is non-negative (Gibbs' inequality via `log t ≤ t − 1`), so the clip is the identity over ℝ -/
+
+theorem miCell_ge {N n a b : Nat} (hN : 0 < N) (ha : 0 < a) (hb : 0 < b) :
+    (n : ℝ) / N ≤ miCell (N : ℝ) N N n a b + ((a : ℝ) / N) * ((b : ℝ) / N) := by
+  rw [miCell_textbook hN ha hb]
+  have hN' : (0 : ℝ) < N := by exact_mod_cast hN
+  have ha' : (0 : ℝ) < a := by exact_mod_cast ha
+  have hb' : (0 : ℝ) < b := by exact_mod_cast hb
+  have hq : (0 : ℝ) < ((a : ℝ) / N) * ((b : ℝ) / N) := by positivity
+  rcases Nat.eq_zero_or_pos n with hn | hn
+  · subst hn; simp; positivity
+  · have hp : (0 : ℝ) < (n : ℝ) / N := by
+      have : (0 : ℝ) < n := by exact_mod_cast hn
+      positivity
+    set p : ℝ := (n : ℝ) / N with hpdef
+    set q : ℝ := ((a : ℝ) / N) * ((b : ℝ) / N) with hqdef
+    have hlog : Real.log (q / p) ≤ q / p - 1 := Real.log_le_sub_one_of_pos (by positivity)
+    have hinv : Real.log (p / q) = - Real.log (q / p) := by
+      rw [← Real.log_inv, inv_div]
+    rw [hinv]
+    have : p * (q / p - 1) = q - p := by field_simp
+    nlinarith [mul_le_mul_of_nonneg_left hlog (le_of_lt hp)]
+
+theorem sum_cast_div {β : Type} (l : List β) (f : β → Nat) (N : ℝ) :
+    (l.map fun x => (f x : ℝ) / N).sum = (((l.map f).sum : Nat) : ℝ) / N := by
+  induction l with
+  | nil => simp
+  | cons a l ih => simp only [List.map_cons, List.sum_cons, ih, Nat.cast_add, add_div]
+
+theorem sum_le_sum_real {β : Type} (l : List β) (f g : β → ℝ) (h : ∀ x ∈ l, f x ≤ g x) :
+    (l.map f).sum ≤ (l.map g).sum := by
+  induction l with
+  | nil => simp
+  | cons a l ih =>
+    simp only [List.map_cons, List.sum_cons]
+    have := h a (List.mem_cons_self ..)
+    have := ih (fun x hx => h x (List.mem_cons_of_mem _ hx))
+    linarith
+
+theorem sum_map_mul_left_real {β : Type} (l : List β) (c : ℝ) (f : β → ℝ) :
+    (l.map fun x => c * f x).sum = c * (l.map f).sum := by
+  induction l with
+  | nil => simp
+  | cons a l ih => simp only [List.map_cons, List.sum_cons, ih]; ring
+
+theorem miSum_nonneg {yr ye : List Nat} (h : yr.length = ye.length) : 0 ≤ miSum yr ye := by
+  rcases Nat.eq_zero_or_pos yr.length with h0 | hN
+  · have : yr = [] := List.eq_nil_of_length_eq_zero h0
+    subst this
+    simp [miSum, classes, sortedUniq]
+  have hN' : (yr.length : ℝ) ≠ 0 := by exact_mod_cast (ne_of_gt hN)
+  -- termwise: p_xy ≤ cell + p_x p_y
+  have hterm : ((classes yr).map fun x => ((classes ye).map fun y =>
+        (((yr.zip ye).countP fun p => p.1 == x && p.2 == y : Nat) : ℝ) / (yr.length : ℝ)).sum).sum ≤
+      ((classes yr).map fun x => ((classes ye).map fun y =>
+        miCell (yr.length : ℝ) (yr.length : ℝ) (yr.length : ℝ)
+          ((yr.zip ye).countP fun p => p.1 == x && p.2 == y) (yr.count x) (ye.count y)
+        + ((yr.count x : ℝ) / yr.length) * ((ye.count y : ℝ) / yr.length)).sum).sum := by
+    apply sum_le_sum_real
+    intro x hx
+    apply sum_le_sum_real
+    intro y hy
+    exact miCell_ge hN (List.count_pos_iff.2 (mem_classes.1 hx)) (List.count_pos_iff.2 (mem_classes.1 hy))
+  -- left side is 1
+  have hleft : ((classes yr).map fun x => ((classes ye).map fun y =>
+        (((yr.zip ye).countP fun p => p.1 == x && p.2 == y : Nat) : ℝ) / (yr.length : ℝ)).sum).sum = 1 := by
+    have : ((classes yr).map fun x => ((classes ye).map fun y =>
+        (((yr.zip ye).countP fun p => p.1 == x && p.2 == y : Nat) : ℝ) / (yr.length : ℝ)).sum) =
+        (classes yr).map fun x => ((((classes ye).map fun y =>
+          (yr.zip ye).countP fun p => p.1 == x && p.2 == y).sum : Nat) : ℝ) / (yr.length : ℝ) := by
+      apply List.map_congr_left
+      intro x _
+      exact sum_cast_div _ _ _
+    rw [this, sum_cast_div, sum_cells_eq_length h, div_self hN']
+  -- the product part is 1
+  have hb1 : ((classes ye).map fun y => (ye.count y : ℝ) / (yr.length : ℝ)).sum = 1 := by
+    rw [sum_cast_div]
+    have : ((classes ye).map fun b => ye.count b).sum = yr.length := by rw [h]; exact classCounts_sum ye
+    rw [this, div_self hN']
+  have ha1 : ((classes yr).map fun x => (yr.count x : ℝ) / (yr.length : ℝ)).sum = 1 := by
+    rw [sum_cast_div]
+    have : ((classes yr).map fun a => yr.count a).sum = yr.length := classCounts_sum yr
+    rw [this, div_self hN']
+  have hright : ((classes yr).map fun x => ((classes ye).map fun y =>
+        ((yr.count x : ℝ) / yr.length) * ((ye.count y : ℝ) / yr.length)).sum).sum = 1 := by
+    have : ((classes yr).map fun x => ((classes ye).map fun y =>
+        ((yr.count x : ℝ) / yr.length) * ((ye.count y : ℝ) / yr.length)).sum) =
+        (classes yr).map fun x => (yr.count x : ℝ) / yr.length := by
+      apply List.map_congr_left
+      intro x _
+      rw [sum_map_mul_left_real, hb1, mul_one]
+    rw [this, ha1]
+  have hsplit : ((classes yr).map fun x => ((classes ye).map fun y =>
+        miCell (yr.length : ℝ) (yr.length : ℝ) (yr.length : ℝ)
+          ((yr.zip ye).countP fun p => p.1 == x && p.2 == y) (yr.count x) (ye.count y)
+        + ((yr.count x : ℝ) / yr.length) * ((ye.count y : ℝ) / yr.length)).sum).sum =
+      miSum yr ye + 1 := by
+    rw [← hright]
+    unfold miSum
+    rw [← sum_map_add_real]
+    congr 1
+    apply List.map_congr_left
+    intro x _
+    exact sum_map_add_real _ _ _
+  rw [hleft, hsplit] at hterm
+  linarith
+
+theorem clip0_real_of_nonneg {x : ℝ} (h : 0 ≤ x) : clip0 x = x := by
+  unfold clip0
+  simp only [Transc.lt, Transc.ofNat, Nat.cast_zero, decide_eq_true_eq]
+  rw [if_neg (not_lt.2 h)]
+
+/-- Over the reals the clip never fires: `mutualInfoIdx` is the double sum itself. -/
+theorem mutualInfoIdx_real {yr ye : List Nat} (h : yr.length = ye.length) :
+    mutualInfoIdx (α := ℝ) yr ye = miSum yr ye := by
+  rw [mutualInfoIdx_real_clip h, clip0_real_of_nonneg (miSum_nonneg h)]
+
+/-- MI is non-negative over the reals. -/
+theorem mutualInfoIdx_real_nonneg {yr ye : List Nat} (h : yr.length = ye.length) :
+    0 ≤ mutualInfoIdx (α := ℝ) yr ye := by
+  rw [mutualInfoIdx_real h]; exact miSum_nonneg h
+
 /-- **mi_textbook.** Over the reals `_mutual_info_score` is `Σ_ij p_ij log(p_ij / (p_i p_j))`
     (`p_ij = n_ij/n`, `p_i = a_i/n`, `p_j = b_j/n`; empty cells contribute 0). -/
 theorem mutualInfoIdx_real_textbook {yr ye : List Nat} (h : yr.length = ye.length) :
@@ -159,6 +290,7 @@ theorem mutualInfoIdx_real_textbook {yr ye : List Nat} (h : yr.length = ye.lengt
         let pij : ℝ := (((yr.zip ye).countP fun p => p.1 == x && p.2 == y : Nat) : ℝ) / (yr.length : ℝ)
         pij * Real.log (pij / (((yr.count x : ℝ) / yr.length) * ((ye.count y : ℝ) / yr.length)))).sum).sum := by
   rw [mutualInfoIdx_real h]
+  unfold miSum
   congr 1
   apply List.map_congr_left
   intro x hx
